@@ -305,7 +305,9 @@ class ScipyKrylov(LinearSolver):
         system = self._system()
         mode = self._mode
 
-        # Need to clear out any junk from the inputs.
+        # Need to clear out any junk from the inputs.  In fwd mode the inputs may hold values
+        # transferred by a parent block solver, so put them back after the preconditioner has run.
+        saved_dinputs = system._dinputs.asarray(copy=True) if mode == 'fwd' else None
         system._dinputs.set_val(0.0)
 
         # assign x and b vectors based on mode
@@ -323,6 +325,9 @@ class ScipyKrylov(LinearSolver):
         self._solver_info.append_precon()
         self.precon.solve(mode)
         self._solver_info.pop()
+
+        if saved_dinputs is not None:
+            system._dinputs.set_val(saved_dinputs)
 
         # return resulting value of x vector
         return x_vec.asarray(copy=True)
